@@ -216,7 +216,7 @@ static void run_case(uint64_t seed, int64_t run, bool thorough, const std::vecto
   // rules pre-compiled by yarac give the same output
   if (rng.chance(1, 3) && r.status == 0) {
     std::string yarc = work + "/rules.yarc"; unlink(yarc.c_str());
-    std::vector<std::string> cav{"yarac"}; if (o.ext_at_compile) for (auto& e : ext_args()) cav.push_back(e); else { cav.push_back("-d"); cav.push_back("ext_i=0"); cav.push_back("-d"); cav.push_back("ext_s=x"); cav.push_back("-d"); cav.push_back("ext_big=0"); }
+    std::vector<std::string> cav{"yarac"}; if (o.ext_at_compile) for (auto& e : ext_args()) cav.push_back(e); else { cav.push_back("-d"); cav.push_back("ext_i=0"); cav.push_back("-d"); cav.push_back("ext_s=t_alpha"); cav.push_back("-d"); cav.push_back("ext_big=0"); }
     cav.push_back(rules_path); cav.push_back(yarc);
     SchedPolicy p1; p1.kind = 2; p1.switch_den[0] = 64; p1.bb_mean = 1000000; p1.max_steps = 50000000;
     InvResult c = run_cli(true, cav, 1, p1, 1); st.c["cli_invocations"]++;
